@@ -38,15 +38,23 @@ Definition dump_ok (s : st) (d : tok) : bool :=
   && forallb (fun p => ctx_ok (fst p) (snd p)) (combine (ctxs s) cs)
   && forallb (fun p => pairs_eqb (sort_pairs (get s (fst p))) (as_pairs (snd p))) (combine (umaps s) us).
 
+(** kinds 10 / 11: a request / a response written by the real FProtocol and read back *)
+Definition step_tok (s : st) (t : tok) : option (option st) :=
+  let f := as_list t in
+  let k := as_int (nth_tok 0 f) in
+  if k =? 10 then Some (send_request s (znat (nth_tok 1 f)) (znat (nth_tok 2 f)))
+  else if k =? 11 then Some (send_response s (znat (nth_tok 1 f)) (znat (nth_tok 2 f)))
+  else match decode_op t with Some o => Some (step s o) | None => None end.
+
 Fixpoint replay (s : st) (steps : list tok) (n : Z) : Z :=
   match steps with
   | [] => n
   | t :: rest =>
     let f := as_list t in
-    match decode_op (nth_tok 0 f) with
+    match step_tok s (nth_tok 0 f) with
     | None => -1
-    | Some o =>
-      match step s o with
+    | Some r =>
+      match r with
       | None => -1
       | Some s' => if dump_ok s' (nth_tok 1 f) then replay s' rest (n + 1) else -1
       end
